@@ -109,6 +109,8 @@ def run(tier, seed):
                     bad("consistent-call-refused", f"{o['exc']}: {o.get('msg')}")
                 else:
                     bad("returned-without-entering", str(o))
+    if entered_ok == 0 and any(l["consistent"] for l in lines):
+        raise MachineryError("C10: the kernel-entry recorder never fired on a consistent call: the hook is not attached to this tree")
     cov = {"states": r.distinct, "transitions": r.generated, "traces_validated_against_impl": judged,
            "evaluations": len(lines), "distinct_nontrivial": sum(1 for l in lines if l["fault"]["kind"] != "none"),
            "rule": "CallProtocol.tla: 12 problems (3 participants per index, a tensor used twice with different index "
